@@ -1,7 +1,7 @@
 (* C06 - Every counted line lands in exactly one platform set; all reports agree.
    Statements only. *)
 From Coq Require Import ZArith String Bool Arith Permutation Sorted List.
-From CBI Require Import Lib.Data Lib.Res Model.C06 Spec.C06 Proofs.C06 Proofs.C06tree.
+From CBI Require Import Lib.Data Lib.Res Model.C06 Spec.C06 Proofs.C06 Proofs.C06tree Proofs.C06more Proofs.C06letters Proofs.C06rowsx.
 Import ListNotations.
 Local Open Scope Z_scope.
 
@@ -141,6 +141,43 @@ Theorem C06_levels_only_hide : forall U prune k files,
 Proof. exact report_levels. Qed.
 Print Assumptions C06_levels_only_hide.
 
+(* ---- beyond the floor ---- *)
+
+(* The unpruned root's dict is, entry for entry and in the same order, the dict
+   report.summary reads (same hypotheses as C06_root_is_summary). *)
+Theorem C06_root_setmap_exact : forall files, links_ok files -> (forall f, In f files -> fpath f <> []) ->
+  tsm (files_tree false files) = get_setmap files.
+Proof. exact root_setmap_exact. Qed.
+Print Assumptions C06_root_setmap_exact.
+
+(* report.summary cannot raise (ZeroDivisionError) when every node counts at least one line. *)
+Theorem C06_summary_total : forall files, (forall f n, In f files -> In n (fnodes f) -> 0 < nnum n) ->
+  exists rows, summary (get_setmap files) = Ok (rows, sloc files).
+Proof. exact summary_total. Qed.
+Print Assumptions C06_summary_total.
+
+(* Every printed cell of a directory row is computed from sums over the shown
+   non-link files beneath the directory: SLOC = all their lines, coverage
+   numerator = their lines with a non-empty platform set (whatever the legend),
+   platform letters = which legend platforms occur on a node beneath, the
+   per-platform numerators of the average coverage = their lines used by that
+   platform; the legend is the list of platforms that occur beneath the root.
+   Hypotheses: the platform names of the analysis all belong to the universe U
+   the harness passes, and no file sits at the root path. *)
+Theorem C06_tree_rows : forall U prune files q n d, names_in U files ->
+  (forall f, In f files -> fpath f <> []) ->
+  (forall f, In f files -> fpath f <> q) -> lookup q (files_tree prune files) = Some n ->
+  let rp := node_plats U (tsm (files_tree prune files)) in
+  let r := mkrow rp U d n in
+  rp = filter (fun p => below_any (mem p) prune [] files) U /\
+  eff_plats rp U (tsm n) = match rp with [] => filter (fun p => below_any (mem p) prune q files) U | _ => rp end /\
+  rtotal r = spec_dir (fun _ => true) prune q files /\
+  rused r = spec_dir (fun k => negb (is_empty k)) prune q files /\
+  rmask r = map (fun p => below_any (mem p) prune q files) rp /\
+  rper r = map (fun p => spec_dir (mem p) prune q files) (eff_plats rp U (tsm n)).
+Proof. exact dir_row. Qed.
+Print Assumptions C06_tree_rows.
+
 (* non-vacuity: two directories, a file used by two platforms with an unused block,
    a header used by one platform, an unused header, and a symlink to a member *)
 Definition C06_ex_node (ls : list Z) (ps : pset) : node := {| nlines := ls; nnum := Z.of_nat (List.length ls); nplat := ps |}.
@@ -153,15 +190,19 @@ Definition C06_example : list file :=
        fnodes := [C06_ex_node [1; 2; 3] []] |};
     {| fpath := ["l.c"]; flink := true; ftarget_in := true; fid := "h1";
        fnodes := [C06_ex_node [1; 2] ["cpu"]] |} ]%string.
-Example C06_nonvacuous_hyps : wf_paths C06_example /\ Forall file_ok C06_example /\ links_ok C06_example.
+Example C06_nonvacuous_hyps : wf_paths C06_example /\ Forall file_ok C06_example /\ links_ok C06_example /\
+  names_in ["cpu"; "gpu"]%string C06_example /\ (forall f n, In f C06_example -> In n (fnodes f) -> 0 < nnum n).
 Proof.
-  split; [|split].
+  split; [|split; [|split; [|split]]].
   - split; [|split].
     + cbn. repeat constructor; cbn; intuition discriminate.
     + intros f g Hf Hg. cbn in Hf, Hg. intuition (subst; reflexivity).
     + intros f Hf. cbn in Hf. intuition (subst; discriminate).
   - repeat constructor; cbn; intuition discriminate.
   - intros f Hf Hl. cbn in Hf. intuition (subst; cbn in Hl; try discriminate; reflexivity).
+  - intros f n p Hf Hn Hp. cbn in Hf. intuition (subst; cbn in Hn; intuition (subst; cbn in Hp |- *;
+      repeat match type of Hp with context [String.eqb p ?s] => destruct (String.eqb p s) eqn:?; try reflexivity end; try discriminate; rewrite ?orb_true_r; try reflexivity)).
+  - intros f n Hf Hn. cbn in Hf. intuition (subst; cbn in Hn; intuition (subst; reflexivity)).
 Qed.
 Example C06_nonvacuous :
   (get_setmap C06_example,
